@@ -27,10 +27,11 @@ CONSTANTS MaxLen, DecLen
 
 (* ---- encoder tokens ---- *)
 Tokens == {"pl","q","bs","lt","gt","amp","cn","cb","cu","nul","del","u2","u3","ls","ps","u4",
-           "xff","xc0","cont","tr3","sur"}
+           "xff","xc0","cont","tr3","sur",
+           "tr4","tr42"}      \* a 4-byte sequence cut after its third / second byte (F0 90 80 | F0 90): 3 / 2 ill-formed bytes
 WellFormed == {"pl","q","bs","lt","gt","amp","cn","cb","cu","nul","del","u2","u3","ls","ps","u4"}
 (* number of bytes of an ill-formed token: each becomes one U+FFFD *)
-BadBytes(t) == CASE t = "tr3" -> 2 [] t = "sur" -> 3 [] OTHER -> 1
+BadBytes(t) == CASE t = "tr3" -> 2 [] t = "sur" -> 3 [] t = "tr4" -> 3 [] t = "tr42" -> 2 [] OTHER -> 1
 
 Control  == {"cn","cb","cu","nul"}
 Struct   == {"q","bs"}
